@@ -227,3 +227,12 @@ Theorem from_snapshots_keeps_marked : forall now l,
   (forall s, must_keep s now = true <-> s_del s = DNever \/ exists t, s_del s = DAfter t /\ now <= t).
 Proof. exact from_snapshots_thm. Qed.
 Print Assumptions from_snapshots_keeps_marked.
+
+(* Raising any keep count never adds an id to the list returned by the command. *)
+Theorem forget_raising_count_monotone : forall ksort tsort, ksort_spec ksort -> tsort_spec tsort ->
+  forall c k k' now l ids ids',
+  same_but_counts k k' ->
+  forget ksort tsort c k now l = Some ids -> forget ksort tsort c k' now l = Some ids' ->
+  forall i, In i ids' -> In i ids.
+Proof. exact forget_raising_count_thm. Qed.
+Print Assumptions forget_raising_count_monotone.
